@@ -73,6 +73,10 @@
 #if DOM == 25
 #include <crab/domains/congruences.hpp>
 #endif
+#if DOM == 28 || DOM == 29
+#include <crab/domains/split_dbm.hpp>
+#include <crab/domains/region_domain.hpp>
+#endif
 
 namespace crab {
 template <> class variable_name_traits<std::string> {
@@ -175,6 +179,24 @@ typedef array_smashing<split_dbm_domain<znum, varname_t, DBM_impl::BigNumDefault
 #elif DOM == 27
 typedef array_adaptive_domain<split_dbm_domain<znum, varname_t, DBM_impl::BigNumDefaultParams<znum, DBM_impl::GraphRep::ss>>> dom_t;
 #define DOM_NAME "array_adaptive_domain<split_dbm>"
+#elif DOM == 28 || DOM == 29
+struct rgn_params_t {
+  using number_t = znum;
+  using varname_t = ds::varname_t;
+  using varname_allocator_t = crab::var_factory_impl::str_var_alloc_col;
+  using base_varname_t = varname_allocator_t::varname_t;
+#if DOM == 28
+  using base_abstract_domain_t = ikos::interval_domain<znum, base_varname_t>;
+#else
+  using base_abstract_domain_t = split_dbm_domain<znum, base_varname_t, DBM_impl::BigNumDefaultParams<znum, DBM_impl::GraphRep::ss>>;
+#endif
+};
+typedef region_domain<rgn_params_t> dom_t;
+#if DOM == 28
+#define DOM_NAME "region_domain<interval_domain>"
+#else
+#define DOM_NAME "region_domain<split_dbm>"
+#endif
 #elif DOM == 25
 typedef ikos::congruence_domain<znum, varname_t> dom_t;
 #define DOM_NAME "congruence_domain<z_number>"
